@@ -6,7 +6,7 @@
    parent's treatment_mapping and sample_mapping is therefore READ FROM THE SOURCE: the translations equal the model
    variant [carry_mappings true] and no other (source_variant_unique). *)
 From Coq Require Import ZArith List Bool Lia Arith.
-From Batchie Require Import Lib.Sexp Lib.PyRt Generated.Consts Generated.SrcArith Model.Encode Model.Screen Model.Reveal
+From Batchie Require Import Lib.Sexp Lib.PyRt Generated.Consts Generated.SrcArithC03 Model.Encode Model.Screen Model.Reveal
   Model.Holdout Generated.SrcReveal Proofs.PyRtLemmas Proofs.C03Base Proofs.C03Screen Proofs.C12Reveal Proofs.C03Frozen Proofs.C03Witness.
 Import ListNotations.
 Open Scope Z_scope.
@@ -124,7 +124,7 @@ Qed.
 Definition sids_of (r : result screen) : option (list Z) := match r with Ok s => Some (s_sids s) | Err _ => None end.
 
 (* the translation determines the variant: [carry_mappings true] is the ONLY variant whose model equals the translated
-   source on all inputs - and it is the variant the call-site constants of Generated/SrcArith.v name *)
+   source on all inputs - and it is the variant the call-site constants of Generated/SrcArithC03.v name *)
 Theorem source_variant_unique : forall v,
   (forall s o, src_step s o = step v s o) <->
   v = {| carry_reveal := SRC_reveal_plates_carries_mappings; carry_mask := SRC_mask_screen_carries_mappings;
